@@ -666,6 +666,13 @@ class ErrGen:
             else:
                 body.append(self.simple())
         body.append(("expr", ("int", 300 + self.tag())))
+        if depth < self.max_depth and ch.bool(0.12):
+            # a block whose only statement is another block (its value is
+            # the inner block's value; the inner finally part runs before
+            # this block's handlers see anything)
+            self.features.add("only-statement-is-a-block")
+            body = [("expr", ("blocke", self.block(depth + 1, in_loop,
+                                                   in_fn)))]
         catches = []
         for _ in range(ch.weighted([(2, 0), (4, 1), (3, 2), (1, 3)])):
             if ch.bool(0.25):
